@@ -10,11 +10,16 @@
      it discards has no claim left (`discard_drops_claims`), what it puts back keeps its author
      (`path_checkout_exact`, `regression_path_checkout_keeps_staged_ai_line`); its hypothesis is `WorkOK` of
      the staged version, as for `git restore` (the former `IndexClean` is gone).
+     A commit / amend / reset in which git sees a re-indented line as ADDED (the ids do not see whitespace) runs
+     the `…Ws` reading of Model/Discard.lean: `no_invention_ws_step_partial` (one step deep from every reachable
+     state), `reset_keeps_reindented_lines_of_target` (the reset repaired by /repo c73c4deb keeps the lines of the
+     target and of its parent, decided and replayed on the binary).
   The model is tied to the binary by vlib/props/c03.py (`correspondence:discard-e2e`): the C03 walks and
   recipes inside the alphabet are replayed by the driver op `disc_run`, notes and blame must agree.
 -/
 import GitAiModel.Props.C04
 import GitAiModel.Lemmas.DiscardRun
+import GitAiModel.Lemmas.DiscardWs
 namespace GitAi.Sys
 
 /-- **no invention.** In every valid history (any interleaving of human edits, agent edits by any
@@ -274,6 +279,64 @@ theorem path_checkout_exact (root : List Nat) (sp : Spec) (h : RInv root sp) (ho
   have hh : (discardFile sp.st).head = sp.st.head := (checkpoint_fields _ none).2.1
   simp only [hw, target, hh]
 
+/-! ### re-indented lines: git's whitespace-sensitive "added by the commit" (Model/Discard.lean `…Ws`) -/
+
+/-- **no invention where git sees a re-indented line as added (`_partial`: one step deep).** After ANY valid
+    sequence over the union alphabet, a commit, a `commit --amend` or a `reset --soft|--mixed HEAD~k` that runs
+    with an ARBITRARY set `re` of lines which git reports in another whitespace form than the older content
+    holds (so that they count as added by the commit / as absent from the reset's target; `hum`: those among
+    them for which git blame stops at a commit that does not list them) still credits
+    nothing but ghost authors: every entry of the new commit's note names a staged line whose ghost is that
+    session, every claim the reset leaves in INITIAL names a line of the recorded working tree whose ghost is
+    that session. With `re = []` the three operations are the alphabet's (`commitStepWs_nil`, `amendStepWs_nil`,
+    `resetStepWs_nil`), covered at any depth by `no_invention_all_ops`.
+    FULL statement (not proved): `no_invention_all_ops` with the three `…Ws` operations in the alphabet. Missing:
+    the invariant `PendingOK` / `Inv2.latest` fixes a claim on a line that HEAD holds to `none` (`target`), which
+    is exactly what a claim about a re-indented HEAD line violates; the invariant would have to be re-stated
+    over (id, whitespace form). The states after such a step are compared with the binary by
+    `correspondence:discard-e2e` only. -/
+theorem no_invention_ws_step_partial (root : List Nat) (g0 : Nat → Author) (hnd : root.Nodup)
+    (hroot : ∀ y ∈ root, g0 y = none) (ops : List DOp)
+    (hv : ValidDOps root ⟨cleanSpec root g0, [], []⟩ ops) (re hum : List Nat) :
+    let r := dspecRun ⟨cleanSpec root g0, [], []⟩ ops
+    (∀ note i s, (commitStepWs re r.sp.st).notes.head? = some note → (i, s) ∈ note →
+        ∃ y, (i, y) ∈ enum1 r.sp.st.index ∧ r.sp.g y = some s) ∧
+    (r.sp.st.log ≠ [] → ∀ note i s, (amendStepWs re hum r.sp.st).notes.head? = some note → (i, s) ∈ note →
+        ∃ y, (i, y) ∈ enum1 r.sp.st.index ∧ r.sp.g y = some s) ∧
+    (∀ k soft i s, (i, s) ∈ (resetStepWs k soft re hum r.sp.st).initial →
+        ∃ y, (i, y) ∈ enum1 (resetStepWs k soft re hum r.sp.st).initSnap ∧ r.sp.g y = some s) := by
+  intro r
+  have h0 : RInv root (cleanSpec root g0) :=
+    ⟨cleanSpec_inv2 root g0 hnd, trivial, rfl, hroot, fun y hy => hy, hnd, by intro cp hcp; simp [cleanSpec] at hcp⟩
+  have h00 : RInv2 root ⟨cleanSpec root g0, [], []⟩ := ⟨h0, trivial⟩
+  obtain ⟨h, _⟩ := dspecRun_inv root _ ops h00 hv
+  exact ⟨fun note i s hn hm => commitStepWs_no_invention h re note i s hn hm,
+    fun hne note i s hn hm => amendStepWs_no_invention h hne re hum note i s hn hm,
+    fun k soft i s hm => resetStepWs_no_invention h k soft re hum i s hm⟩
+
+/-- the history of the three decided examples below: on a person's file `[1, 2, 3]` session 7 appends one
+    line per commit (`10`, `11`, `12`, `13`: four commits) -/
+def fourAiCommits : State :=
+  run { head := [1, 2, 3], index := [1, 2, 3], work := [1, 2, 3] }
+    [.aiEdit 7 [1, 2, 3, 10], .stageAll, .commit, .aiEdit 7 [1, 2, 3, 10, 11], .stageAll, .commit,
+     .aiEdit 7 [1, 2, 3, 10, 11, 12], .stageAll, .commit, .aiEdit 7 [1, 2, 3, 10, 11, 12, 13], .stageAll, .commit]
+
+/-- **the repaired reset (/repo c73c4deb), decided; replayed on the binary by vlib/props/c03.py `ws_witness`.**
+    A person re-indents the four AI lines (same ids, `re` = all four), `git reset --soft HEAD~1`: the lines of
+    the undone commit (`13`), of the target (`12`) and of the target's parent (`11`: the boundary of
+    `git blame target^!`) stay pending for session 7 at lines 5–7; `10`, two commits below the target, is
+    nobody's (no invention, a loss). Without re-indentation only the undone commit's line is pending. The
+    commit that follows lists the three lines (git sees them as added); an amend instead of the reset reads
+    blame without a lower bound and lists all four. -/
+theorem reset_keeps_reindented_lines_of_target :
+    (resetStepWs 1 true [10, 11, 12, 13] [] fourAiCommits).initial = [(5, 7), (6, 7), (7, 7)] ∧
+    (resetStep 1 true fourAiCommits).initial = [(7, 7)] ∧
+    (commitStepWs [10, 11, 12] (resetStepWs 1 true [10, 11, 12, 13] [] fourAiCommits)).notes.head? = some [(5, 7), (6, 7), (7, 7)] ∧
+    (commitStep (resetStepWs 1 true [10, 11, 12, 13] [] fourAiCommits)).notes.head? = some [(7, 7)] ∧
+    (amendStepWs [10, 11, 12, 13] [] fourAiCommits).notes.head? = some [(4, 7), (5, 7), (6, 7), (7, 7)] ∧
+    (amendStepWs [10, 11, 12, 13] [10, 11] fourAiCommits).notes.head? = some [(6, 7), (7, 7)] ∧
+    (amendStep fourAiCommits).notes.head? = some [(7, 7)] := by decide
+
 /-! ### regressions: the pre-fix reading of the claims against the current one -/
 
 /-- the state the four regressions start from: an agent (session 7) inserted `10`, `11`; a commit that
@@ -386,6 +449,8 @@ end GitAi.Sys
 
 #print axioms GitAi.Sys.no_invention_all_ops
 #print axioms GitAi.Sys.no_invention_all_ops_note
+#print axioms GitAi.Sys.no_invention_ws_step_partial
+#print axioms GitAi.Sys.reset_keeps_reindented_lines_of_target
 #print axioms GitAi.Sys.discard_drops_claims
 #print axioms GitAi.Sys.regression_O3_stale_initial_after_path_checkout
 #print axioms GitAi.Sys.regression_O20_initial_by_line_number_after_restore
